@@ -13,6 +13,7 @@ Print Assumptions C06_reported_fitness_is_base_fitness_of_final_constants.
 Theorem C06_final_constants_are_what_the_optimizer_returned :
   forall (C : Type) (base : list C -> key) o i r1 r2 o' i' v, lo_call C base o i r1 r2 = (o', i', Some v) ->
   needs_opt C i = true ->
+  (consts C i = [] /\ consts C i' = []) \/
   (exists tr fin, r1 = Returns C tr fin /\ consts C i' = fin) \/
   (exists tr tr2 fin, r1 = RaisesTypeError C tr /\ r2 = Returns C tr2 fin /\ consts C i' = fin).
 Proof. exact lo_call_final_constants. Qed.
